@@ -28,7 +28,7 @@ theorem best_chain_only_executed (P : Params) (F m hi lo : Nat) (r : Bool) (g : 
   have hP : Pres P (fun _ => True) (fun _ => True) Q := {
     frame := by intro s s' h ha; show ∀ b ∈ s'.best, _; rw [ha.2.2.2.2.1]; exact h
     conn := by
-      intro s b s' h _ _ hc
+      intro s b s' h _ _ _ hc
       obtain ⟨tip, rest, s1, ptd, _, _, hex, hs1, _, rfl⟩ := connectBlock_ok hc
       have hbest : s1.best = s.best := (saveSeq_frame hs1).2.2.2.2.2.2.2.2.2.1
       intro x hx
@@ -51,10 +51,11 @@ theorem best_chain_only_executed (P : Params) (F m hi lo : Nat) (r : Bool) (g : 
             intro x hx
             exact h x (by rw [hbest]; exact List.mem_cons_of_mem _ hx)
     store := by
-      intro s b s' h _ hs
+      intro s b s' _ h _ _ _ _ hs
       have := sameChain_storeBlock hs
       show ∀ b ∈ s'.best, _
       rw [this.1]; exact h
+    addIdx := by intro s b src h _; exact h
     poolAdd := by intro s x h _; exact h
     poolDel := by intro s x h; exact h
     restart := by intro s h; exact h }
@@ -82,6 +83,56 @@ example :
     let s := run P (init 0 12 600 200 true g) [.deliver b1 .peer]
     s.best = [b1, g] ∧ (∀ s1, P.exec s1 b2 ≠ none) ∧ (processBlock P s b2 .peer).2 = .err .checkStateHash := by
   refine ⟨by decide, fun s1 => by simp, by decide⟩
+
+/-- **reject_orphan_placement_noop.**  A block (invalid or not — nothing is executed) whose parent
+the node does not know is put into the orphan pool or refused: best chain, state and indexes do
+not move, in any node state.  What DOES change is the orphan pool, keyed by block hash — the
+poisoning left to `no_poisoning_full_false`. -/
+theorem reject_orphan_placement_noop (P : Params) (s : State) (b : Blk) (src : Src)
+    (hpar : blockExists (unorphan s b) b.parent = false) :
+    SameChain s (processBlock P s b src).1 ∧
+    ((processBlock P s b src).2 = .orphan ∨ ∃ e, (processBlock P s b src).2 = .err e) :=
+  processBlock_orphan_placement s b src hpar
+
+/-- … and when its parent has arrived and the orphan's turn comes (`ProcessOrphans` hands it to
+`maybeAcceptBlock`): if it is invalid and extends the tip, an error and no change of the chain part. -/
+theorem reject_processed_orphan_noop (P : Params) (s : State) (b : Blk) (src : Src)
+    (hinv : ∀ s1, P.exec s1 b ≠ none)
+    (tip : Blk) (rest : List Blk) (hbest : s.best = tip :: rest) (hpar : b.parent = tip.id) :
+    SameChain s (maybeAcceptBlock P s b src).1 ∧ ∃ e, (maybeAcceptBlock P s b src).2 = .err e :=
+  maybeAcceptBlock_reject_tip s b src hinv tip rest hbest hpar
+
+/-- **reject_side_placement_noop.**  A block (invalid or not — it is not executed) on a known
+parent other than the tip that does not outweigh the tip, or lies below the finalisation margin,
+and for which no orphan is waiting: pre-stored and indexed, best chain, state and indexes do not
+move, the answer is never "main" — in any node state.  What DOES change is the block-by-hash
+store and the index (`dbMaybeStoreBlock`, `index.AddNode` before any validation): exactly the
+part refuted by `no_poisoning_full_false` / `rejected_body_not_served_full_false`.  Together with
+`reject_tip_extension_noop` this leaves ONE way for an invalid block to move the chain: it, or an
+orphan waiting for it, claims more total difficulty than the tip and triggers a reorganisation
+(`reject_noop_full_false`). -/
+theorem reject_side_placement_noop (P : Params) (s : State) (b : Blk) (src : Src)
+    (tip : Blk) (rest : List Blk) (hbest : s.best = tip :: rest) (hpar : b.parent ≠ tip.id)
+    (hid1 : b.id ≠ tip.id) (hid2 : b.id ≠ b.parent)
+    (hlight : ∀ tiptd ptd, s.tds tip.id = some tiptd → s.tds b.parent = some ptd →
+      b.diff + ptd ≤ tiptd ∨ b.height < s.fin + s.margin)
+    (hno : ∀ o ∈ s.orphans, o.1.parent ≠ b.id) :
+    SameChain s (processBlock P s b src).1 ∧ (processBlock P s b src).2 ≠ .main :=
+  processBlock_side_placement s b src tip rest hbest hpar hid1 hid2 hlight hno
+
+/-- Non-vacuity of the two placement theorems: block 3 (invalid) as a lighter sibling of the tip
+is answered "side", block 5 on an unknown parent "orphan"; the chain stays 0,1,2. -/
+example :
+    let P : Params := { key := id, txh := fun _ => none, exec := fun _ b => if b.stateOk then none else some .checkStateHash }
+    let g : Blk := { id := 0, parent := 0, height := 0, diff := 1, time := 0, txs := [] }
+    let b1 : Blk := { id := 1, parent := 0, height := 1, diff := 1, time := 1, txs := [1] }
+    let b2 : Blk := { id := 2, parent := 1, height := 2, diff := 1, time := 2, txs := [2] }
+    let b3 : Blk := { id := 3, parent := 1, height := 2, diff := 1, time := 3, txs := [3], stateOk := false }
+    let b5 : Blk := { id := 5, parent := 4, height := 4, diff := 9, time := 5, txs := [5], stateOk := false }
+    let s := run P (init 0 12 600 200 true g) [.deliver b1 .peer, .deliver b2 .peer]
+    (processBlock P s b3 .peer).2 = .side ∧ (processBlock P s b5 .peer).2 = .orphan ∧
+    (processBlock P (processBlock P s b3 .peer).1 b5 .peer).1.best.map (·.id) = [2, 1, 0] ∧
+    (processBlock P s b3 .peer).1.stored 3 = some b3 := by decide
 
 /-- **reject_noop** — the statement at the strength of the property text ("a rejected block
 leaves them unchanged"), for the code's literal margin 12: a block that fails validity leaves
